@@ -705,6 +705,17 @@ func short(l []string) string {
 	return fmt.Sprintf("%q", l)
 }
 
+// judged: the relations the property names - one row per application, mixin, endpoint, parameter, statement, type,
+// table key, field, enum, alias, event, annotation and tag. The remaining relations of the schema (Import, View,
+// Src.*: source locations) are only required to be the same on every run.
+func judged(rel string) bool {
+	switch rel {
+	case "App", "Mixin", "Ep", "Event", "Param", "Stmt", "Type", "Table", "Field", "Enum", "Alias":
+		return true
+	}
+	return strings.HasPrefix(rel, "Tag.") || strings.HasPrefix(rel, "Anno.")
+}
+
 func judge(c *common.Ctx, cr *caseResult) {
 	name := cr.rp.File
 	if name == "" {
@@ -772,6 +783,9 @@ func judge(c *common.Ctx, cr *caseResult) {
 		if strings.Join(a, "\n") != strings.Join(b, "\n") {
 			c.Fail("nondeterministic", fmt.Sprintf("%s: two runs of relmod.Normalize give different %s rows", name, k), cr.rp)
 			return
+		}
+		if !judged(k) {
+			continue
 		}
 		missing, extra := diffRows(exp[k], obs[k])
 		if len(missing) > 0 || len(extra) > 0 {
